@@ -29,6 +29,13 @@ Arguments lobj : clear implicits.
 Definition c13_case (exact : bool) (base transformed : list Q) : nat :=
   code [ if exact then qlist_eqb base transformed else list_eqb (fun a b => Qclose tol48 a b || Qeqb a b) base transformed;
          (length base =? length transformed)%nat ].
+(* after divisions / differences (amplitudes DD/DR - 1, covariances) values may nearly cancel, so the
+   comparison is absolute on the scale of the largest entry: |b_i - t_i| <= 2^-40 * max(1, max_j |b_j|) *)
+Definition qabsmax (l : list Q) : Q := fold_right (fun x m => if Qleb m (Qabs x) then Qabs x else m) 1 l.
+Definition c13_case_scaled (base transformed : list Q) : nat :=
+  let m := qabsmax base in
+  code [ list_eqb (fun a b => Qleb (Qabs (a - b)) ((1 # 1099511627776) * m)) base transformed;
+         (length base =? length transformed)%nat ].
 (* additivity: whole = part1 + part2, entry-wise *)
 Fixpoint zipadd (a b : list Q) : list Q :=
   match a, b with x :: xs, y :: ys => (x + y) :: zipadd xs ys | _, _ => [] end.
